@@ -14,11 +14,13 @@
   convergence theorems; that the two rebased replace steps *do* apply is proved under the decidable guard
   `commuteGuard` (`commute_succeeds_replace`: one step inside a node the other does not touch; false
   without a guard, `commute_needs_guard`), and likewise for a replace step outside `[from, to]` of a
-  replace-around step (`commute_succeeds_around`).
+  replace-around step (`commute_succeeds_around`) and for two replace-around steps one after the other
+  (`commute_succeeds_around_around`).  A step strictly inside the kept gap: guard `gapGuard` found and tied to the
+  real code, theorem `commute_succeeds_around_gap` stated, not proved (last section: what is missing).
   Helper lemmas: Proofs/Commute.lean, Proofs/CommuteMarkup.lean, Proofs/CommuteSuccess.lean,
   Proofs/CommuteSuccessR.lean, Proofs/Lvl.lean; for replace-around steps Proofs/CommuteAround.lean,
   Proofs/CommuteAroundDocs.lean, Proofs/CommuteAroundMarkup.lean, Proofs/CommuteAroundSuccess.lean,
-  Proofs/ContentBetweenToks.lean.
+  Proofs/CommuteAroundAgain.lean, Proofs/ContentBetweenToks.lean.
 -/
 import PM.Step
 import Proofs.StepToks
@@ -1228,5 +1230,84 @@ theorem commute_succeeds_around_around (S : Schema) (d da db : Node)
   · have hfr := apply_replace_fromReplace S db dab _ _ I false hba
     exact around_again_same S d db da dab f t gf gt ins f' t' sl I'.toks st gap I hn hnb hgo hsep
       (by omega) hl' hdb ha hgap ho1 ho2 hinst hfr
+
+/-! Non-vacuity of the decidable hypotheses of `commute_succeeds_around_around`: in
+    `doc(quote(p("a")), quote(p("b")))` two users re-create the two paragraphs around their content
+    (`set_node_markup`-shaped steps `replaceAround 1 4 2 3 <p>` and `replaceAround 6 9 7 8 <p>`); both have the
+    library's shape, tokens 4 and 5 lie between them, and the first one happens inside the first quote, which the
+    second one does not touch.  (That such pairs apply and converge in the real code: harness counter
+    `guard-around-around:holds`, oracle `commuteGuard=>converge`.) -/
+example :
+    let d : Node := .elem 0 [] [] [.elem 3 [] [] [.elem 1 [] [] [.text [97] []]],
+      .elem 3 [] [] [.elem 1 [] [] [.text [98] []]]]
+    let p : Slice := ⟨[.elem 1 [] [] []], 0, 0⟩
+    AroundShape 1 4 2 3 p 1 ∧ AroundShape 6 9 7 8 p 1 ∧ 4 < 6 ∧ fnorm d.kids = true ∧ fnorm p.content = true ∧
+    commuteGuard d.kids 1 4 p 6 9 p = true := by
+  refine ⟨by decide, by decide, by decide, ?_, ?_, ?_⟩
+  · simp [Node.kids, fnorm, fnormKids, Node.norm, chainOk, adjOk]
+  · simp [fnorm, fnormKids, Node.norm, chainOk]
+  · simp [Node.kids, commuteGuard, insideLeft, depthAt]
+
+/-! ### a step strictly inside the kept gap of a replace-around step: the guard (`gapGuard`, PM/CommuteGuard.lean)
+
+Without a guard the rebased steps need not apply (real code, harness counters `gap-pair:an-order-fails:<opA>/<opB>`,
+182 of 2973 in-gap pairs at seed 0).  The failing pairs are of two kinds, neither excused by C17-parent-retyped:
+* the inner step closes the node the gap lives in (a `split` of the re-typed textblock, a replace whose slice is open
+  deeper than the position is nested inside the gap): after it the range `[gapFrom, gapTo')` is no longer a closed
+  slice and the rebased replace-around step fails ("Gap is not a flat range"); e.g. basic schema,
+  `doc(h1("0\nyxz\n", br), hr)`, `set_node_markup` = `replaceAround 0 9 1 8 <h2> 1` against
+  `replace 7 7 <h1()|code_block("\n𝒳")|h1()>(1,1)`: the replace-around step first, then the replace applies;
+  the replace first, then the replace-around step fails.
+* the inner step adds / removes nodes at the gap's own level and the node the gap is moved into does not accept the
+  new children (both orders fail, or one does).
+`gapGuard d gapFrom gapTo f1 t1 s1` = `replace_outer` of the inner step descends into an element node that lies
+entirely inside `[gapFrom, gapTo]`: the inner step rebuilds nodes inside that node only, so the gap stays a closed
+slice with the same top-level nodes (same types, attrs, marks).  Tie: driver op `gapGuard` against the same predicate
+on the real `ResolvedPos` data, and the relational oracle "guard ⇒ the real code's four applications succeed and give
+equal documents" on every in-gap pair with a replace or replace-around partner (seeds 0–3: no counterexample;
+seed 0: guard true on 1344 pairs, all converge; false on 859, of which 181 have a failing order).
+
+    theorem commute_succeeds_around_gap (hn : fnorm d.kids) (hsn1 : fnorm s1.content) (hsn : fnorm sl.content)
+        (hs : AroundShape f t gf gt sl ins) (h : gf < f1) (h' : t1 < gt)
+        (ha : S.apply (.replace f1 t1 s1 b1) d = .ok da)
+        (hb : S.apply (.replaceAround f t gf gt sl ins st) d = .ok db)
+        (hg : gapGuard d.kids gf gt f1 t1 s1 = true) :
+        ∃ A' R' dab, (Step.replaceAround f t gf gt sl ins st).map (Step.replace f1 t1 s1 b1).getMap = some A' ∧
+          (Step.replace f1 t1 s1 b1).map (Step.replaceAround f t gf gt sl ins st).getMap = some R' ∧
+          S.apply A' da = .ok dab ∧ S.apply R' db = .ok dab
+
+NOT PROVED.  What is there: the rebased steps (`rebase_around_separated`, gap clause), convergence when all four
+applications succeed (`commute_replace_around`).  What is missing, in the order a proof would use it:
+1. `insideGap_decomp` (analogue of `insideLeft_decomp`, Proofs/CommuteSuccess.lean): the guard gives a level
+   `Lvl ty K b nd tyA (P ++ n :: R) ctx` with `n = .elem tyN aN mN kN`, `gf ≤ b + fsize P`,
+   `b + fsize P + n.size ≤ gt`, and the inner replace is `replaceKids S tyN kN g1 h1 s1 = .ok kN'` inside `n`
+   (then `da.kids = ctx (P ++ .elem tyN aN mN kN' :: R)` by `replaceKids_eq`).
+2. `sliceKids_inner_congr`: the gap of `da` at `[gf, gt + δ1)` is the gap of `d` with `n` replaced by
+   `.elem tyN aN mN kN'` at the same place (closed again) — `slice_again` does not apply, the tokens differ.
+3. **the real gap**: `insertAt_inner_congr` + `replaceKids_slice_inner_congr`: `Slice.insertAt` and `replaceKids`
+   succeed alike, with `n` exchanged for `.elem tyN aN mN kN'` in the result, when an element node strictly inside the
+   slice content — not on its open spines — has its children exchanged (same markup, normal form).  This is the
+   slice-side counterpart of `replaceKids_prefix` / `replaceKids_suffix` (which exchange the content of a *document*
+   node next to the range); nothing of the kind exists yet.  It needs "the gap content is never on the open spine of
+   the filled slice", which holds for `insert`-positions the library builds but not for every `AroundShape`
+   (`sl = <ul(li(p))>(3, _)`, `insert = 2` puts the gap in front of `p`): either a further decidable hypothesis
+   (`openStart ≤` depth of the insertion point's left neighbours) or a proof that such a step never applies.
+4. the other order: `replaceKids_eq` under `ctx' ` of `db` — the node `n` sits in `db` inside the nodes of `sl` at
+   `f + ins + (start n − gf)`, found through `replaceKids_toks`-style facts only; needs a `Lvl` for `db` built from the
+   `insertAt` / `replaceKids` results of step 3. -/
+
+/-- the guard holds: in `doc(quote(p("a"), p("b")))`, lifting both paragraphs out of the quote
+    (`replaceAround 0 8 1 7 ⟨[], 0, 0⟩ 0`, gap `[1, 7)`) against typing inside the second paragraph (`5 … 5`):
+    the typing happens inside `p("b")`, which lies inside the gap -/
+example :
+    gapGuard [.elem 3 [] [] [.elem 1 [] [] [.text [97] []], .elem 1 [] [] [.text [98] []]]] 1 7 5 5
+      ⟨[.text [120] []], 0, 0⟩ = true := by
+  simp [gapGuard, insideGap, depthAt]
+
+/-- … and fails for a split of the paragraph whose markup is being changed (`set_node_markup` on `p("ab")`:
+    gap `[1, 3)`, split at 2 with `</p><p>` = slice `<p()|p()>(1,1)`): the split closes the node the gap lives in -/
+example :
+    gapGuard [.elem 1 [] [] [.text [97, 98] []]] 1 3 2 2 ⟨[.elem 1 [] [] [], .elem 1 [] [] []], 1, 1⟩ = false := by
+  simp [gapGuard, insideGap, depthAt]
 
 end PM.C17
